@@ -498,3 +498,88 @@ func (c *c8icpt) BadC8Hoisted(w interceptor.RTPWriter) interceptor.RTPWriter {
 		return n, err
 	})
 }
+
+// ---- C6 (look-up and removal) -------------------------------------------------------------------------------------------
+
+func (r *c6reg) get(ssrc uint32) (*c7obj, bool) {
+	r.mu.Lock()
+	defer r.mu.Unlock()
+	l, ok := r.logs[ssrc]
+	return l, ok
+}
+
+// GoodC6Remove takes the entry out in the critical section that looked it up, then cleans it up.
+func (r *c6reg) GoodC6Remove(ssrc uint32) {
+	r.mu.Lock()
+	l, ok := r.logs[ssrc]
+	delete(r.logs, ssrc)
+	r.mu.Unlock()
+	if ok {
+		l.GoodC7Step(0)
+	}
+}
+
+// BadC6Remove looks the entry up through the locking getter, cleans it up, and removes "it" in a second critical
+// section: a stream re-bound under the same key in between is removed instead.
+func (r *c6reg) BadC6Remove(ssrc uint32) {
+	l, ok := r.get(ssrc)
+	if !ok {
+		return
+	}
+	l.GoodC7Step(0)
+	r.mu.Lock()
+	delete(r.logs, ssrc)
+	r.mu.Unlock()
+}
+
+// ---- C9 ---------------------------------------------------------------------------------------------------------------
+
+// GoodC9notify publishes under the lock and tells the application outside it (asynchronously); the injected clock it
+// reads under the lock is a parameterless provider, the validation hook a confirmed pair.
+type GoodC9notify struct {
+	mu       sync.Mutex
+	value    int
+	clock    func() int64
+	hook     func(int) int
+	onChange func(int)
+}
+
+func (g *GoodC9notify) Set(v int) {
+	g.mu.Lock()
+	_ = g.clock()
+	v = g.hook(v)
+	g.value = v
+	cb := g.onChange
+	g.mu.Unlock()
+	if cb != nil {
+		go cb(v)
+	}
+}
+
+func (g *GoodC9notify) Get() int {
+	g.mu.Lock()
+	defer g.mu.Unlock()
+	return g.value
+}
+
+// BadC9notify calls the application's callback inside the critical section: a callback that calls Get never returns.
+type BadC9notify struct {
+	mu       sync.Mutex
+	value    int
+	onChange func(int)
+}
+
+func (g *BadC9notify) Set(v int) {
+	g.mu.Lock()
+	defer g.mu.Unlock()
+	g.value = v
+	if g.onChange != nil {
+		g.onChange(v)
+	}
+}
+
+func (g *BadC9notify) Get() int {
+	g.mu.Lock()
+	defer g.mu.Unlock()
+	return g.value
+}
